@@ -20,6 +20,22 @@ THEOREMS = [
     "HedVerif.C11.accepted_value",
     "HedVerif.C11.own_factor_of_key",
     "HedVerif.C11.value_linear",
+    "HedVerif.C11.unitsDistinct_iff",
+    "HedVerif.C11.lookup_none_of_not_accepts",
+    "HedVerif.C11.lookup_iff_accepts",
+    "HedVerif.C11.distinct_no_empty_spelling",
+    "HedVerif.C11.bare_number_closed",
+    "HedVerif.C11.rpartition_append",
+    "HedVerif.C11.own_factor_closed",
+    "HedVerif.C11.accepted_check",
+    "HedVerif.C11.accept_closed",
+    "HedVerif.C11.accept_closed_prefix_unit",
+    "HedVerif.C11.reject_closed",
+    "HedVerif.C11.toRat_mul",
+    "HedVerif.C11.toRat_scale",
+    "HedVerif.C11.value_rat",
+    "HedVerif.C11.value_linear_rat",
+    "HedVerif.C11.accept_value_rat",
 ]
 BUDGET = {"quick": 900, "thorough": 3600}
 NUMS_OK = ["3", "-3", "+3", "3.5", ".5", "3.", "1e3", "1E-3", "0", "007", "12.25e+2"]
@@ -197,6 +213,13 @@ def run_schema(ctx, name, full):
     ans = ctx.model.batch(reqs)
     for c in ans[0]["classes"]:
         ctx.count(f"{name}:class-functional={c['functional']},emptyKey={c['emptyKey']}")
+        ctx.count(f"class-unitsDistinct={c['unitsDistinct']}")
+        ctx.extra.setdefault("units_distinct", {})[f"{name}/{c['name']}"] = c["unitsDistinct"]
+        if not c["unitsDistinct"]:
+            why = [k for k in ("functional", "nonEmptyKeys", "nameKeysFolded", "symbolsApart") if not c[k]]
+            ctx.count(f"{name}:class-not-unitsDistinct:{c['name']}:" + ",".join(why))
+            ctx.notes.append(f"{name}/{c['name']}: UnitsDistinct fails ({', '.join(why)}) - the closed theorems "
+                             "accept_closed/bare_number_closed do not apply to this class")
         if not c["functional"] or c["emptyKey"]:
             ctx.notes.append(f"{name}/{c['name']}: derived table not functional or has an empty key - theorems' hypotheses fail there")
     for (tagname, cnames, numeric, ext, ok, u, kind), m in zip(cases, ans[1:]):
